@@ -8,7 +8,7 @@ use std::{
 	rc::Rc,
 	sync::Arc,
 };
-use subjects::drivers::{ledger_reset, ledger_snapshot, Tracked, CMD_DEPTH, CMD_ERR, CMD_MEM, CMD_PANIC};
+use subjects::drivers::{ledger_reset, ledger_snapshot, Tracked, ZTracked, CMD_DEPTH, CMD_ERR, CMD_MEM, CMD_PANIC};
 
 #[derive(Clone, Copy, Debug, PartialEq, Eq)]
 pub enum Fault {
@@ -194,6 +194,68 @@ macro_rules! wrap_holder {
 		}
 	};
 }
+// zero-sized droppable elements (a separate in-place path is tempting for them)
+macro_rules! zarray_holder {
+	($($n:literal),*) => {$(
+		impl Holder for [ZTracked; $n] {
+			const NAME: &'static str = concat!("[ZTracked; ", $n, "] (zero-sized element)");
+			fn elems(_: usize) -> usize { $n }
+			fn input(cmds: &[u8]) -> Vec<u8> { cmds.to_vec() }
+			fn sizes() -> Vec<usize> { vec![$n] }
+			fn owned(&self) -> usize { $n }
+		}
+	)*}
+}
+zarray_holder!(1, 3, 8);
+wrap_holder!(Box, [ZTracked; 3], "Box<[ZTracked; 3]>");
+wrap_holder!(Rc, [ZTracked; 3], "Rc<[ZTracked; 3]>");
+wrap_holder!(Box, ZTracked, "Box<ZTracked>");
+impl Holder for ZTracked {
+	const NAME: &'static str = "ZTracked";
+	fn elems(_: usize) -> usize {
+		1
+	}
+	fn input(cmds: &[u8]) -> Vec<u8> {
+		cmds.to_vec()
+	}
+	fn sizes() -> Vec<usize> {
+		vec![1]
+	}
+	fn owned(&self) -> usize {
+		1
+	}
+}
+impl Holder for Vec<ZTracked> {
+	const NAME: &'static str = "Vec<ZTracked>";
+	fn elems(n: usize) -> usize {
+		n
+	}
+	fn input(cmds: &[u8]) -> Vec<u8> {
+		<Vec<Tracked>>::input(cmds)
+	}
+	fn sizes() -> Vec<usize> {
+		vec![0, 1, 3, 8]
+	}
+	fn owned(&self) -> usize {
+		self.len()
+	}
+}
+impl Holder for [[ZTracked; 2]; 3] {
+	const NAME: &'static str = "[[ZTracked; 2]; 3]";
+	fn elems(_: usize) -> usize {
+		6
+	}
+	fn input(cmds: &[u8]) -> Vec<u8> {
+		cmds.to_vec()
+	}
+	fn sizes() -> Vec<usize> {
+		vec![6]
+	}
+	fn owned(&self) -> usize {
+		6
+	}
+}
+
 impl Holder for Tracked {
 	const NAME: &'static str = "Tracked";
 	fn elems(_: usize) -> usize {
@@ -517,6 +579,21 @@ pub fn one<H: Holder>(n: usize, pos: usize, fault: Fault) -> Result<&'static str
 		let at = input.iter().position(|b| *b == 0x7e).expect("marker present");
 		input.truncate(at);
 	}
+	// one unmeasured run first: anything the code under test sets up once (lazily initialised state) is
+	// not a leak of this call
+	{
+		ledger_reset();
+		let _ = guarded(|| {
+			let mut s = &input[..];
+			let _ = match fault {
+				Fault::DepthLimit => H::decode_with_depth_limit(16, &mut s).map(drop),
+				Fault::MemLimit => H::decode_with_mem_limit(&mut s, 1 << 40).map(drop),
+				Fault::ContainerDepth => H::decode_with_depth_limit(pos as u32, &mut s).map(drop),
+				Fault::ContainerMem => H::decode_with_mem_limit(&mut s, pos * 8).map(drop),
+				_ => H::decode(&mut s).map(drop),
+			};
+		});
+	}
 	ledger_reset();
 	// everything that owns memory from the decode is created and dropped inside the measured region
 	let (res, usage) = crate::alloc::measure(|| -> Result<&'static str, String> {
@@ -662,6 +739,8 @@ macro_rules! all_holders {
 		$m!(VecOf<[Tracked; 3]>, $($a),*); $m!(VecOf<Box<[Tracked; 3]>>, $($a),*); $m!(VecOf<Vec<Tracked>>, $($a),*);
 		$m!(VecOf<Box<Tracked>>, $($a),*); $m!(VecOf<Transp>, $($a),*);
 		$m!([Box<[Tracked; 2]>; 3], $($a),*); $m!([Vec<Tracked>; 2], $($a),*);
+		$m!([ZTracked; 1], $($a),*); $m!([ZTracked; 3], $($a),*); $m!([ZTracked; 8], $($a),*); $m!(Box<[ZTracked; 3]>, $($a),*);
+		$m!(Rc<[ZTracked; 3]>, $($a),*); $m!(Box<ZTracked>, $($a),*); $m!(Vec<ZTracked>, $($a),*); $m!([[ZTracked; 2]; 3], $($a),*);
 	}};
 }
 
